@@ -318,6 +318,7 @@ def check_function(R, func, subject, mode='return', emit=(),
     signed_id = []
     bad_store = []
     raw_decision = []
+    unsigned_id = []
     stores = 0
     memo_params = set(func.params) - {subject, 'self'}
     for path in plist:
@@ -360,6 +361,20 @@ def check_function(R, func, subject, mode='return', emit=(),
                 s = it[1]
                 if mode == 'emit':
                     for c in au.calls_in(s):
+                        # (name, i): argument i is the identity of what
+                        # is emitted and must itself carry the sign
+                        for spec in emit:
+                            if isinstance(spec, tuple) and au.call_name(
+                                    c) == spec[0] and len(
+                                        c.args) > spec[1]:
+                                a = c.args[spec[1]]
+                                if flow.is_tainted(a) or \
+                                        flow.uses_unstripped(a) or \
+                                        flow.uses(a, flow.dep):
+                                    observed += 1
+                                if flow.is_tainted(a) and not \
+                                        expr_sign_dependent(flow, a):
+                                    unsigned_id.append((path, c, a))
                         if au.call_name(c) in emit:
                             argexprs = list(c.args) + [
                                 k.value for k in c.keywords]
@@ -429,6 +444,17 @@ def check_function(R, func, subject, mode='return', emit=(),
             'only updated when a reference is complemented: after one '
             'complemented reference every later one is marked too',
             unit=func.unit.rel, line=node.lineno, path=pa.describe(path))
+    if unsigned_id:
+        path, node, a = unsigned_id[0]
+        R.violation(
+            rule, 'unsigned-identity', func.qualname, au.short(a, 30),
+            f'`{au.short(node, 60)}`: the name `{au.short(a, 30)}` under '
+            f'which the reference `{subject}` is drawn is computed from '
+            f'abs({subject}) only, so a function and its negation, both '
+            'given as roots, are drawn as ONE external reference (the '
+            'second overwrites the label of the first and adds a second, '
+            'contradictory edge)', unit=func.unit.rel, line=node.lineno,
+            path=pa.describe(path))
     if raw_decision:
         path, node, name = raw_decision[0]
         R.violation(
@@ -649,7 +675,9 @@ LOOP_INSTANCES = {
              ('add_edge',)),
             ('dd.bdd._to_dot', sel_triple_loop_with('add_edge'),
              ('add_edge',)),
-            ('dd.bdd._to_dot', sel_param_loop('roots'), ('add_edge',))],
+            ('dd.bdd._to_dot', sel_param_loop('roots'), ('add_edge',)),
+            ('dd.bdd._to_dot', sel_param_loop('roots'),
+             (('add_node', 0),))],
 }
 EXEMPT = {
     # result is independent of the sign of the reference
